@@ -652,13 +652,23 @@ func trackRun(e *Env) {
 	net.listModes = g.Pct(40)
 	flood := g.Pct(60)
 	names := []string{"alice", "bob", "carol", "dave", "erin", "frank", "grace", "heidi"}
+	// spelling: servers keep the case a name was created with, and so must the
+	// tracker (every line of a session uses the one spelling)
+	if g.Pct(35) {
+		for i := range names {
+			if g.Pct(50) {
+				names[i] = strings.ToUpper(names[i][:1]) + names[i][1:]
+			}
+		}
+	}
+	chanFmt := []string{"#c%d", "#Chan%d", "&LOCAL%d", "#GoLang-%d"}[g.W(5, 2, 1, 1)]
 	net.me = &netUser{nick: "me", ident: "sim", host: "host.sim", name: "Sim User"}
 	net.users = append(net.users, net.me)
 	for i := 0; i < nUsers; i++ {
 		net.users = append(net.users, &netUser{nick: names[i], ident: "id" + names[i], host: names[i] + ".host.sim", name: "Real " + names[i]})
 	}
 	for i := 0; i < nChans; i++ {
-		c := &netChan{name: fmt.Sprintf("#c%d", i), flags: map[byte]bool{}, members: map[*netUser]map[byte]bool{}}
+		c := &netChan{name: fmt.Sprintf(chanFmt, i), flags: map[byte]bool{}, members: map[*netUser]map[byte]bool{}}
 		// pre-existing population with privileges
 		for _, u := range net.users[1:] {
 			if g.Pct(50) {
@@ -848,7 +858,7 @@ func trackRun(e *Env) {
 				if kind == "fg" {
 					// a sample of the rest of the universe too
 					ns = append(ns, names[g.S.Choose(len(names))], "me")
-					cs = append(cs, fmt.Sprintf("#c%d", g.S.Choose(nChans)))
+					cs = append(cs, fmt.Sprintf(chanFmt, g.S.Choose(nChans)))
 					e.Check()
 					// once the connection is ending, undispatched lines may be
 					// discarded, so the cumulative model state no longer applies
